@@ -13,6 +13,7 @@ import (
 	"strings"
 
 	authpb "istio.io/api/security/v1beta1"
+	typepb "istio.io/api/type/v1beta1"
 	"istio.io/istio/pilot/pkg/model"
 )
 
@@ -653,7 +654,8 @@ func policyMatches(p *model.AuthorizationPolicy, r *request) bool {
 //   - workload WITH that label (a Gateway API gateway): without targetRefs the selector decides; with targetRefs
 //     some reference must name this Gateway (group gateway.networking.k8s.io, kind Gateway, same namespace).
 func (s *sut) applies(p *model.AuthorizationPolicy) bool {
-	if p.Namespace != s.rootNS && p.Namespace != s.wlNS {
+	waypoint := s.proxyType == model.Waypoint && !s.term
+	if p.Namespace != s.rootNS && p.Namespace != s.wlNS && !(s.svc != nil && p.Namespace == s.svc[1]) {
 		return false
 	}
 	selected := true
@@ -671,11 +673,25 @@ func (s *sut) applies(p *model.AuthorizationPolicy) bool {
 		return len(refs) == 0 && selected
 	}
 	if len(refs) == 0 {
-		return selected
+		return !waypoint && selected // a waypoint never takes selector policies
+	}
+	is := func(ref *typepb.PolicyTargetReference, group, kind string) bool {
+		g := ref.GetGroup()
+		if g == "" {
+			g = "core"
+		}
+		return g == group && ref.GetKind() == kind
 	}
 	for _, ref := range refs {
-		if p.Namespace == s.wlNS && (ref.GetNamespace() == "" || ref.GetNamespace() == s.wlNS) &&
-			ref.GetGroup() == "gateway.networking.k8s.io" && ref.GetKind() == "Gateway" && ref.GetName() == gw {
+		switch {
+		case waypoint && is(ref, "core", "Service") && s.svc != nil && ref.GetName() == s.svc[0] && p.Namespace == s.svc[1] && s.svc[2] == "k8s":
+			return true
+		case waypoint && is(ref, "networking.istio.io", "ServiceEntry") && s.svc != nil && ref.GetName() == s.svc[0] && p.Namespace == s.svc[1] && s.svc[2] != "k8s":
+			return true
+		case waypoint && p.Namespace == s.rootNS && is(ref, "gateway.networking.k8s.io", "GatewayClass") && ref.GetName() == "istio-waypoint":
+			return true
+		case p.Namespace == s.wlNS && (ref.GetNamespace() == "" || ref.GetNamespace() == s.wlNS) &&
+			is(ref, "gateway.networking.k8s.io", "Gateway") && ref.GetName() == gw:
 			return true
 		}
 	}
